@@ -103,6 +103,9 @@ pub fn all_ops(names: &[&str]) -> Vec<Op> {
         for l in lits {
             ops.push(expr_op(&format!("{} = {}", n, l)));
         }
+        // two texts that differ only in the blanks inside the literal
+        ops.push(expr_op(&format!("{} = \"p q\"", n)));
+        ops.push(expr_op(&format!("{} = \"p  q\"", n)));
         for op in ["+=", "-=", "*=", "/=", "%=", "^=", "&&=", "||="] {
             for l in &lits[..6] {
                 ops.push(expr_op(&format!("{} {} {}", n, op, l)));
@@ -355,6 +358,18 @@ pub fn check_state(live: &Live, names: &[&str], report: &mut dyn FnMut(&str, Str
         let g = api::eval_str(k, c);
         if !matches!(&g, Got::Err(ErrClass::UnknownVar(n), _) if n == k) {
             report("state/unbound-name-resolves", format!("{} is an unknown variable", k), g.show());
+        }
+    }
+    // … nor is there any access path into a value through the name of a variable
+    for k in m.vars.keys() {
+        for probe in [format!("{}.0", k), format!("{}.1", k), format!("{}.0.0", k), format!("{}[0]", k), format!("{}::0", k), format!("{}.len", k), format!("{}'", k)] {
+            if m.vars.contains_key(&probe) {
+                continue;
+            }
+            let g = api::eval_str(&probe, c);
+            if !matches!(&g, Got::Err(ErrClass::UnknownVar(n), _) if *n == probe) {
+                report("state/unbound-name-resolves", format!("{} is an unknown variable", probe), g.show());
+            }
         }
     }
     // a user function (identity) named typeof takes precedence; else the builtin unless disabled
@@ -655,6 +670,95 @@ impl Phase for ManyNames {
     }
 }
 
+/// one context with several hundred thousand distinct names (and tens of thousands of functions): every name keeps its
+/// own value. Enough names for a few collisions in any 32-bit digest of the name; plus word pairs known to collide
+/// under the common string hashes (FNV-1a, djb2, Java hashCode, CRC-32).
+struct HugeContext {
+    n: u64,
+    names: usize,
+}
+
+const COLLIDING_WORDS: [&str; 30] = [
+    "costarring", "liquid", "declinate", "macallums", "altarage", "zinke", "altarages", "zinkes", "Aa", "BB", "AaAa", "BBBB", "AaBB", "BBAa",
+    "hetairas", "mentioner", "heliotropes", "neurospora", "depravement", "serafins", "stylist", "subgenera", "joyful", "synaphea",
+    "plumless", "buckeroo", "codding", "gnu", "exhibiters", "schlager",
+];
+
+impl Phase for HugeContext {
+    fn name(&self) -> String {
+        format!("one context with {} distinct names", self.names)
+    }
+    fn len(&self) -> u64 {
+        self.n
+    }
+    fn run(&mut self, idx: u64, r: &mut Rng, out: &mut Out) {
+        out.begin(|| format!("huge context #{}", idx));
+        let mut names: Vec<String> = COLLIDING_WORDS.iter().map(|s| s.to_string()).collect();
+        let mut seen: std::collections::HashSet<String> = names.iter().cloned().collect();
+        let letters: Vec<char> = "abcdefghijklmnopqrstuvwxyz".chars().collect();
+        while names.len() < self.names {
+            let i = names.len();
+            let w = match r.below(5) {
+                0 => format!("v{}", i),
+                1 => format!("ns{}::k{}", i % 7, r.next() % 1_000_000),
+                2 => format!("{}{}", r.pick(&["é", "日", "λ", "x'", "#"]), r.next() % 10_000_000),
+                _ => {
+                    let n = r.range(3, 10);
+                    (0..n).map(|_| *r.pick(&letters)).collect()
+                },
+            };
+            if seen.insert(w.clone()) {
+                names.push(w);
+            }
+        }
+        let mut c = Ctx::new();
+        for (i, n) in names.iter().enumerate() {
+            let _ = c.set_value(n.clone(), Value::Int(i as i64));
+        }
+        let nf = names.len() / 8;
+        for (i, n) in names.iter().take(nf).enumerate() {
+            let k = i as i64;
+            let _ = c.set_function(n.clone(), evalexpr::Function::new(move |_| Ok(Value::Int(-k))));
+        }
+        out.evals((names.len() + nf) as u64);
+        let mut wrong = 0u64;
+        let mut first: Option<(String, String, String)> = None;
+        for (i, n) in names.iter().enumerate() {
+            let got = c.get_value(n);
+            if got != Some(&Value::Int(i as i64)) {
+                wrong += 1;
+                if first.is_none() {
+                    let other = match got {
+                        Some(Value::Int(j)) => names.get(*j as usize).cloned().unwrap_or_default(),
+                        _ => String::new(),
+                    };
+                    first = Some((format!("get_value({:?}) after set_value of {} distinct names (it was set to {})", n, names.len(), i), format!("Some(Int({}))", i), format!("{:?} (the value of {:?})", got, other)));
+                }
+            }
+        }
+        for (i, n) in names.iter().take(nf).enumerate() {
+            let got = c.call_function(n, &Value::Empty);
+            if got != Ok(Value::Int(-(i as i64))) {
+                wrong += 1;
+                if first.is_none() {
+                    first = Some((format!("call_function({:?}) after set_function of {} distinct names", n, nf), format!("Ok(Int({}))", -(i as i64)), format!("{:?}", got)));
+                }
+            }
+        }
+        let listed = c.iter_variables().count();
+        if listed != names.len() && first.is_none() {
+            first = Some((format!("iter_variables().count() after set_value of {} distinct names", names.len()), names.len().to_string(), listed.to_string()));
+        }
+        out.evals((names.len() + nf) as u64);
+        out.nontrivial(&format!("huge {}", idx));
+        out.count_n("names held in one context, each read back", names.len() as u64);
+        if let Some((i, e, o)) = first {
+            out.violation("context/state/names-interfere", i, e, format!("{} ({} names wrong)", o, wrong));
+        }
+        out.sample(|| format!("{} variables and {} functions in one context, each reads back its own value", names.len(), nf));
+    }
+}
+
 /// contexts built by the two macros are ordinary contexts: same observable state as the model built by hand, and
 /// every operation continues to behave from there
 struct MacroBuilt {
@@ -783,6 +887,10 @@ pub fn phases(cfg: &Cfg) -> Vec<Box<dyn Phase>> {
         }),
         Box::new(MacroBuilt {
             ops: all_ops(&["a", "b"]),
+        }),
+        Box::new(HugeContext {
+            n: cfg.n(16, 64),
+            names: if cfg.thorough { 1_000_000 } else { 300_000 },
         }),
     ]
 }
